@@ -147,6 +147,7 @@ func (fc *FnCtx) checkExit(r retInfo, entryEnv *specEnv) {
 		if len(r.results) == 1 {
 			env.vars["result"] = r.results[0]
 		}
+		fc.pointClausesV(st, "at_exit", "exit", fc.fn.Pos(), env.vars)
 		for i, e := range con.Ensures {
 			g := fc.evalBool(env, e)
 			fc.oblige(st, fmt.Sprintf("post%d", i), g, fc.fn.Pos(), e.Text)
